@@ -107,6 +107,8 @@ structure AssocTy where
   name : String
   /-- text after the name: `: Bound + Other` (may be empty) -/
   bounds : String
+  /-- types the bounds mention -/
+  tys : List Ty := []
   deriving Repr, Inhabited
 
 structure Interface where
